@@ -228,6 +228,19 @@ func (b *bucket) put(name string, item *bucketData) {
 	object.data = item
 }
 
+// promoteNewest makes the most recently created of the older versions the
+// current one, if there is no current version.
+func (b *bucketObject) promoteNewest() {
+	if b.data != nil || b.versions == nil || b.versions.Len() == 0 {
+		return
+	}
+	it := b.versions.SeekToLast()
+	newest := it.Value().(*bucketData)
+	it.Close()
+	b.versions.Delete(newest.versionID)
+	b.data = newest
+}
+
 func (b *bucket) rm(name string, at time.Time) (result gofakes3.ObjectDeleteResult, rerr error) {
 	object := b.object(name)
 	if object == nil {
@@ -260,6 +273,9 @@ func (b *bucket) rmVersion(name string, versionID gofakes3.VersionID, at time.Ti
 		result.VersionID = versionID
 		result.IsDeleteMarker = object.data.deleteMarker
 		object.data = nil
+
+		// The newest remaining version becomes the current one:
+		object.promoteNewest()
 
 	} else if object.versions != nil {
 		versionIface, ok := object.versions.Delete(versionID)
